@@ -267,6 +267,23 @@ func checkC10(c *Check) {
 	if nSet == 0 {
 		c.OK("flamego:no-SetHeaderMatcher-callers", "router.go", "no caller of SetHeaderMatcher outside the route package", 1)
 	}
+	// inside the route package a matcher is forwarded only to the short form of the same (optional) route,
+	// which is never in the table; a leaf of another registration (e.g. the implicit HEAD twin) that received
+	// a matcher this way would stay in the table unevicted
+	for _, fn := range p.Funcs() {
+		if fn.Pkg != p.SSA["route"] {
+			continue
+		}
+		for _, s := range callsIn(fn, func(n string, cm *ssa.CallCommon) bool { return strings.HasSuffix(n, ".SetHeaderMatcher") }) {
+			recv := s.Common().Value
+			if !s.Common().IsInvoke() && len(s.Common().Args) > 0 {
+				recv = s.Common().Args[0]
+			}
+			f := fieldOf(addrOfLoad(strip(recv)))
+			okFwd := fn.Name() == "SetHeaderMatcher" && f != nil && f.Name() == "shortForm"
+			c.Cond(okFwd, p.FuncKey(fn)+":forwards-to-short-form-only", p.Pos(s.Pos()), "the matcher is forwarded to the short form of the same route only", "a header matcher is forwarded inside the route package to a leaf other than the route's own short form: that leaf may be in the shortcut table and nothing evicts it (the shortcut then serves it without checking headers)")
+		}
+	}
 
 	// ---- R5 static nodes compare the request segment with the segment's own canonical text
 	c.Rule("R5", "E3 provenance", "a static leaf matches exactly TrimLeft(segment.String(), \"/?\") and a static tree exactly segment.String()[1:]: the text used as shortcut key is the text the tree compares with", 2)
@@ -610,6 +627,8 @@ func checkC10(c *Check) {
 	// ---- R7 Static() answers "is an earlier sibling of the same literal in front of me" from the list order
 	c.Rule("R7", "shared with C01 (R2)", "siblings are inserted behind every entry of the same or higher priority (registered earlier ⇒ earlier in the list): Static() of a leaf is computed once at registration from the siblings in front of it, so a later insert in front of an existing entry would make the table and the tree disagree", 3)
 	c.Share("C01", []string{"R2"}, 3)
+	c.Rule("R8", "shared with C01 (R7)", "shortcut and tree are asked with the same text: the tree is matched against req.URL.Path of routeTrees[req.Method], the very key the shortcut is looked up under (another spelling of the path for one of the two makes the shortcut observable)", 3)
+	c.Share("C01", []string{"R7"}, 3)
 }
 
 type staticImpl struct {
